@@ -266,9 +266,27 @@ def r14_6_7(ctx) -> None:
         ctx.check(ok, "R14.6", fn, fn.node, fn.short, "set_kid does not record the given kid under the header name \"kid\"", "header['kid'] = kid", construct=f"{fn.short} writes kid")
     ah = P.cls("rfc7516.models:Recipient").methods.get("add_header")
     if ah is not None:
-        writes = [norm(n) for n in fn_nodes(ah) if isinstance(n, (ast.Dict,))]
-        ctx.check(all("k: v" in w for w in writes) and len(writes) >= 3, "R14.6", ah, ah.node, ah.short, "Recipient.add_header does not store {k: v} in every branch", "{k: v} in protected / header",
-                  construct="Recipient.add_header")
+        kp_, vp_ = ah.pos_params[1], ah.pos_params[2]
+        acfg = cfg_of(ah)
+
+        def _kv_display(d) -> bool:
+            return isinstance(d, ast.Dict) and bool(d.keys) and d.keys[-1] is not None and norm(d.keys[-1]) == kp_ and norm(d.values[-1]) == vp_
+        stores = []
+        for x in acfg.nodes:
+            if x.kind != "stmt":
+                continue
+            st = x.ast
+            if isinstance(st, ast.Expr) and isinstance(st.value, ast.Call) and isinstance(st.value.func, ast.Attribute) and st.value.func.attr == "update" \
+                    and len(st.value.args) == 1 and _kv_display(st.value.args[0]) and norm(st.value.func.value).endswith((".header", ".protected")):
+                stores.append(x)
+            elif isinstance(st, ast.Assign) and len(st.targets) == 1:
+                tg = st.targets[0]
+                if isinstance(tg, ast.Subscript) and norm(tg.slice) == kp_ and norm(st.value) == vp_ and norm(tg.value).endswith((".header", ".protected")):
+                    stores.append(x)
+                elif isinstance(tg, ast.Attribute) and tg.attr == "header" and _kv_display(st.value):
+                    stores.append(x)
+        ctx.check(bool(stores) and acfg.must_pass(acfg.entry, acfg.exit, stores), "R14.6", ah, ah.node, ah.short, "Recipient.add_header does not store {k: v} in every branch",
+                  "{k: v} in protected / header on every path", construct="Recipient.add_header")
     gs = P.func("jwe:_guess_sender_key")
     cfg = cfg_of(gs)
     ks = P.cls(KS)
